@@ -168,15 +168,21 @@ func oracle(v reflect.Value) error {
 		} else {
 			target = reflect.New(v.Type())
 		}
-		if err := tl.Decode(b1, target.Interface()); err != nil {
+		// the decoder reads from a buffer of the caller's (a receive buffer), which the caller uses again afterwards
+		in := append(make([]byte, 0, len(b1)+8), b1...)
+		if err := tl.Decode(in, target.Interface()); err != nil {
 			return fmt.Errorf("Decode into %v: %v", target.Type(), err)
 		}
+		if !bytes.Equal(in, b1) {
+			return fmt.Errorf("Decode changed the bytes it was given")
+		}
+		hx.Scribble(in)
 		got := target
 		if v.Kind() != reflect.Ptr {
 			got = target.Elem()
 		}
 		if d := tlx.Equal(v, got); d != "" {
-			return fmt.Errorf("Decode into the named type returns a different value at %s", d)
+			return fmt.Errorf("Decode into the named type returns a different value at %s (compared after the caller reused the buffer it decoded from)", d)
 		}
 		if b3, err := tl.Marshal(got.Interface()); err != nil || !bytes.Equal(b3, b1) {
 			return fmt.Errorf("re-serialising the decoded value gives different bytes (err %v)", err)
@@ -187,12 +193,17 @@ func oracle(v reflect.Value) error {
 			id = o.CRC()
 		}
 		if rt, ok := reg.ByID[id]; ok && rt == v.Type() {
-			obj, err := tl.DecodeUnknownObject(b1)
+			in := append(make([]byte, 0, len(b1)+8), b1...)
+			obj, err := tl.DecodeUnknownObject(in)
 			if err != nil {
 				return fmt.Errorf("DecodeUnknownObject: %v", err)
 			}
+			if !bytes.Equal(in, b1) {
+				return fmt.Errorf("DecodeUnknownObject changed the bytes it was given")
+			}
+			hx.Scribble(in)
 			if d := tlx.Equal(v, reflect.ValueOf(obj)); d != "" {
-				return fmt.Errorf("DecodeUnknownObject returns a different value at %s", d)
+				return fmt.Errorf("DecodeUnknownObject returns a different value at %s (compared after the caller reused the buffer it decoded from)", d)
 			}
 			ov := reflect.ValueOf(obj)
 			kept.Keep("a value returned by DecodeUnknownObject", func() []byte { return []byte(tlx.Equal(v, ov)) })
